@@ -621,6 +621,16 @@ impl Model {
         match sub {
           None => {
             let combo = format!("op-assign:{}|{}<-{}:{}", bop.name(), class_of(&cur.v), e.form(), src_form(&val));
+            // `tb += r`: the record becomes a new row of the table (a copy: the record and the table stay independent)
+            if let (SV::Table(rows, cols), SV::Record(fields)) = (&cur.v, &val) {
+              let fits = *bop == Bop::Add && fields.len() == cols.len() && cols.iter().all(|(cn, ck, _)| fields.iter().any(|(n, kd, v)| n == cn && kd == ck && v.is_scalar()));
+              if !fits { return self.either_unknown(name, "f6-record-schema", combo); }
+              let mut nc = cols.clone();
+              for (cn, _, data) in nc.iter_mut() { data.push(fields.iter().find(|(n, _, _)| n == cn).unwrap().2.clone()); }
+              let mut st = s.clone();
+              st.get_mut(name).unwrap().v = SV::Table(rows + 1, nc);
+              return self.verdict(Must::Ok, After::Store(st), combo);
+            }
             let defined = match (&cur.v, &val) {
               (a, b) if a.is_scalar() && b.is_scalar() => a.kind_tag() == b.kind_tag(),
               (SV::Mat(ek, ..), b) if b.is_scalar() => *ek == b.kind_tag(),
